@@ -53,7 +53,7 @@ def build(tier, seed):
         header=HDR + "def api(cp, conv):\n    return api_position('cell', cp, conv, 'mid')\n", api=True,
         body=r'''
     holes_reset()
-    out = TextContent._convert_special_chars(NS(text=chr(cp), convert=conv))
+    out = TextContent._convert_special_chars(NS.of(TextContent, text=chr(cp), convert=conv))
     return decodes_to(out, [cp])
 ''',
         funcs=["rtflite.row:TextContent._convert_special_chars"],
@@ -72,7 +72,7 @@ def build(tier, seed):
             header=HDR + "def api(cp, conv):\n    return api_position('cell', cp, conv, 'mid')\n", api=True,
             body=r'''
     holes_reset()
-    out = TextContent._convert_special_chars(NS(text=%s, convert=conv))
+    out = TextContent._convert_special_chars(NS.of(TextContent, text=%s, convert=conv))
     return decodes_to(out, %s)
 ''' % (body_text, exp),
             funcs=["rtflite.row:TextContent._convert_special_chars", "rtflite.text_conversion.converter:TextConverter.convert_latex_to_unicode"],
@@ -89,7 +89,7 @@ def build(tier, seed):
             header=HDR + "def api(cp, conv):\n    return api_position('cell', cp, conv, %r)\n" % pos, api=True,
             body=r'''
     holes_reset()
-    out = TextContent._convert_special_chars(NS(text=%s, convert=conv))
+    out = TextContent._convert_special_chars(NS.of(TextContent, text=%s, convert=conv))
     return decodes_to(out, %s)
 ''' % (tmpl, exp),
             funcs=["rtflite.row:TextContent._convert_special_chars"],
@@ -103,7 +103,7 @@ def build(tier, seed):
         templates=True, timeout=T, header=HDR,
         body=r'''
     holes_reset()
-    out = TextContent._convert_special_chars(NS(text=chr(cp) + chr(cq), convert=conv))
+    out = TextContent._convert_special_chars(NS.of(TextContent, text=chr(cp) + chr(cq), convert=conv))
     return decodes_to(out, [cp, cq])
 ''',
         funcs=["rtflite.row:TextContent._convert_special_chars"],
@@ -136,7 +136,7 @@ def build(tier, seed):
                 "title" if meth == "line" else "footnote_par"), api=True,
             body=r'''
     holes_reset()
-    me = NS(text_font=[1], text_font_size=[9], text_format=None, text_color=None, text_background_color=None,
+    me = NS.of(attributes.TextAttributes, text_font=[1], text_font_size=[9], text_format=None, text_color=None, text_background_color=None,
             text_justification=["l"], text_indent_first=[0], text_indent_left=[0], text_indent_right=[0],
             text_space=[1], text_space_before=[15], text_space_after=[15], text_convert=[conv],
             text_hyphenation=[True])
@@ -210,7 +210,7 @@ def api(cp):
         header=HDR + "from rtflite.input import RTFTableTextComponent\n",
         body=r"""
     entry = "a" + chr(cp) + "b"
-    me = NS(text=[entry, "z"] if two else [entry])
+    me = NS.of(RTFTableTextComponent, text=[entry, "z"] if two else [entry])
     RTFTableTextComponent._process_text_conversion(me)
     return me.text == (entry + chr(92) + "line z" if two else entry)
 """,
